@@ -141,7 +141,8 @@ func (c ErrCase) site() (prep []Stmt, body []Stmt) {
 func (c ErrCase) Program() *Program {
 	prep, body := c.site()
 	f := &Func{Body: Blk(body...)}
-	handler := Fn([]string{"m"}, Emit(S("handler"), N("m"), B("==", N("m"), N("errobj"))), Ret(Tab(FK("wrapped", N("m")))))
+	// the handler returns several values: only the first one replaces the error value
+	handler := Fn([]string{"m"}, Emit(S("handler"), N("m"), B("==", N("m"), N("errobj"))), Ret(Tab(FK("wrapped", N("m"))), S("second result"), I(3)))
 	show := func(tag string, call Expr) []Stmt {
 		// results of a protected call: status, type of the second value, the value itself and whether it is the error object
 		return []Stmt{Loc([]string{"ok", "e", "extra"}, call),
